@@ -332,6 +332,7 @@ func (g *genState) genIter(h *histRun) *hop {
 		return inLog[rng.Intn(len(inLog))]
 	}
 	var start []iface.IPFSLogEntry
+	related := false
 	switch rng.Intn(5) {
 	case 4: // several LTE bounds of which one lies in the past of another: an entry, one of its predecessors, now and then a third
 		sp.HasLTE = true
@@ -342,6 +343,7 @@ func (g *genState) genIter(h *histRun) *hop {
 				if i, ok := idxOf[n.String()]; ok {
 					if _, held := inMap[n.String()]; held {
 						sp.LTE = append(sp.LTE, i)
+						related = true
 						break
 					}
 				}
@@ -400,6 +402,16 @@ func (g *genState) genIter(h *histRun) *hop {
 				}
 			}
 		}
+	}
+	if related && rng.Intn(2) == 0 {
+		// no lower bound, and an amount of three or more that the range can satisfy: the entry that is both a
+		// bound and a predecessor of another bound is met twice by the traversal and counts once
+		a := 3
+		if len(rng_) > 3 {
+			a += rng.Intn(len(rng_) - 2)
+		}
+		sp.Amount = &a
+		return &hop{Kind: "iter", R: r, Iter: sp}
 	}
 	if x := rng.Intn(3); x > 0 && len(rng_) > 0 {
 		b := rng_[rng.Intn(len(rng_))]
